@@ -6,6 +6,7 @@ import (
 	"fmt"
 	"math"
 	"strings"
+	"time"
 
 	"github.com/gogpu/naga/ir"
 	"github.com/gogpu/naga/msl"
@@ -25,7 +26,7 @@ func init() {
 type c15Config struct {
 	backend string
 	label   string
-	oob     int  // wref policy for dynamic accesses; -1 = this backend offers no index policy (access family not applicable)
+	oob     int // wref policy for dynamic accesses; -1 = this backend offers no index policy (access family not applicable)
 	run     func(m *ir.Module, c *wgen.Case, o xrt.Opts) (xrt.Buffers, string, error, *nagax.Panic)
 }
 
@@ -97,9 +98,32 @@ func convAccept(c *wgen.Case, got xrt.Buffers) string {
 	return ""
 }
 
+// c15IsAccess: families whose programs are dynamic accesses (judged under an index policy).
+func c15IsAccess(family string) bool {
+	return strings.HasPrefix(family, "F15acc") || strings.HasPrefix(family, "F15idx") ||
+		family == "F15xf" || family == "F15xc" || family == "F15xv"
+}
+
+// c15Class: the construct class of a case signature (the hostile values go into the failure
+// detail, not into the class).
+func c15Class(sig string) string {
+	sc := sig
+	if i := strings.Index(sc, "/idx="); i > 0 {
+		sc = sc[:i]
+	}
+	if strings.HasPrefix(sc, "F15ops/") {
+		sc = sc[:strings.LastIndex(sc, "/")] // drop operand source
+	}
+	return sc
+}
+
 func c15Program(r *explore.Run, p *prog) {
 	c := p.Case
 	if c == nil {
+		return
+	}
+	if strings.HasPrefix(c.Family, "F15xreuse") {
+		c15ReuseReplay(r, c)
 		return
 	}
 	m, _, err, pn := nagax.Front(p.Src)
@@ -107,15 +131,7 @@ func c15Program(r *explore.Run, p *prog) {
 		r.Skip("front end rejected/panicked (C08/C10)")
 		return
 	}
-	isAccess := strings.HasPrefix(c.Family, "F15acc") || strings.HasPrefix(c.Family, "F15idx")
-	isConv := strings.Contains(p.Sig, "/conv/")
-	sc := p.Sig
-	if i := strings.Index(sc, "/idx="); i > 0 {
-		sc = sc[:i] // the index value goes into the failure class, not the construct class
-	}
-	if strings.HasPrefix(sc, "F15ops/") {
-		sc = sc[:strings.LastIndex(sc, "/")] // drop operand source
-	}
+	isAccess := c15IsAccess(c.Family)
 	for _, cfg := range c15Configs() {
 		if isAccess && cfg.oob < 0 {
 			continue
@@ -131,61 +147,93 @@ func c15Program(r *explore.Run, p *prog) {
 		}
 		r.Count("evaluations", int64(c.Groups[0]))
 		got, text, err, pn := cfg.run(m, c, xrt.Opts{NumWorkgroups: c.Groups, StepLimit: 200_000 * int64(c.Groups[0]), PoisonLocals: true})
-		if pn != nil {
-			r.Skip("naga panic (C10)")
-			continue
+		c15Judge(r, p, cfg.backend, cfg.label, ref, got, text, err, pn)
+	}
+}
+
+// c15Judge applies the oracle to one execution: no trap, no poison, no malformed output, and the
+// WGSL-defined / policy-defined result.
+func c15Judge(r *explore.Run, p *prog, backend, label string, ref *refResult, got xrt.Buffers, text string, err error, pn *nagax.Panic) {
+	c := p.Case
+	if pn != nil {
+		r.Skip("naga panic (C10)")
+		return
+	}
+	sc := c15Class(p.Sig)
+	isConv := strings.Contains(p.Sig, "/conv/")
+	rp := p.replay()
+	rp["backend"], rp["config"] = backend, label
+	if text != "" {
+		rp["emitted"] = trunc(text, 6000)
+	}
+	idxTag := ""
+	if i := strings.Index(p.Sig, "/idx="); i > 0 {
+		idxTag = p.Sig[i+1:]
+	}
+	if err != nil {
+		var ce *compileErr
+		if errors.As(err, &ce) {
+			r.Skip("backend returned an error (C08)")
+			return
 		}
-		rp := p.replay()
-		rp["backend"], rp["config"] = cfg.backend, cfg.label
-		if text != "" {
-			rp["emitted"] = trunc(text, 6000)
+		class, skip := failClass(err)
+		if skip != "" {
+			r.Skip(skip)
+			return
 		}
-		idxTag := ""
-		if i := strings.Index(p.Sig, "/idx="); i > 0 {
-			idxTag = p.Sig[i+1:]
-		}
-		if err != nil {
-			var ce *compileErr
-			if errors.As(err, &ce) {
-				r.Skip("backend returned an error (C08)")
-				continue
-			}
-			class, skip := failClass(err)
-			if skip != "" {
-				r.Skip(skip)
-				continue
-			}
-			r.Violate(explore.Violation{Key: "C15|" + cfg.backend + "|" + cfg.label + "|" + sc + "|" + class,
-				Detail: fmt.Sprintf("%s code for %s [%s] executes an undefined operation on hostile data (%s): %v", cfg.backend, p.Sig, cfg.label, idxTag, err), Replay: rp})
-			continue
-		}
-		var diff string
-		if isConv {
-			diff = convAccept(c, got)
-		} else {
-			diff = compareBufs(c, ref.bufs, got)
-		}
-		if diff != "" {
-			r.Violate(explore.Violation{Key: "C15|" + cfg.backend + "|" + cfg.label + "|" + sc + "|wrong-result",
-				Detail: fmt.Sprintf("%s code for %s [%s] does not give the WGSL-defined / policy-defined result (%s): %s", cfg.backend, p.Sig, cfg.label, idxTag, diff), Replay: rp})
-			continue
-		}
-		for _, k := range outBindings(c) {
-			r.DistinctBytes(got[k])
-		}
+		r.Violate(explore.Violation{Key: "C15|" + backend + "|" + label + "|" + sc + "|" + class,
+			Detail: fmt.Sprintf("%s code for %s [%s] executes an undefined operation on hostile data (%s): %v", backend, p.Sig, label, idxTag, err), Replay: rp})
+		return
+	}
+	var diff string
+	if isConv {
+		diff = convAccept(c, got)
+	} else {
+		diff = compareBufs(c, ref.bufs, got)
+	}
+	if diff != "" {
+		r.Violate(explore.Violation{Key: "C15|" + backend + "|" + label + "|" + sc + "|wrong-result",
+			Detail: fmt.Sprintf("%s code for %s [%s] does not give the WGSL-defined / policy-defined result (%s): %s", backend, p.Sig, label, idxTag, diff), Replay: rp})
+		return
+	}
+	for _, k := range outBindings(c) {
+		r.DistinctBytes(got[k])
 	}
 }
 
 func runC15() int {
 	r := explore.New("C15")
-	fams := []*wgen.Family{wgen.F15Ops(), wgen.F15Access(), wgen.F15Zero(), wgen.F15Idx()}
+	if r.Thorough() {
+		r.SetDeadline(60 * time.Minute)
+	}
+	fams := []*wgen.Family{wgen.F15Ops(), wgen.F15Access(), wgen.F15Zero(), wgen.F15Idx(), c15LayoutFamily(r.Thorough())}
 	forEachProgram(r, fams, nil, func(p *prog) { c15Program(r, p) })
+	targets := c15xTargets()
+	xf, xc, xv := wgen.F15xForms(r.Thorough()), wgen.F15xChains(r.Thorough()), wgen.F15xValue()
+	for _, f := range []*wgen.X15Family{xf, xc, xv} {
+		c15xRunFamily(r, f, targets)
+	}
+	c15RunMixedPolicies(r)
+	c15RunReuse(r)
 	c := fams[1].At(9)
 	r.Sample(map[string]any{"access": c.Sig, "source": wgen.Print(c.Mod)})
 	r.Sample(map[string]any{"operator": fams[0].At(5).Sig, "hostile_operands": "0, 1, -1, INT_MIN, INT_MAX; NaN, +-inf, +-2^31, 2^32, +-1e30"})
+	for _, f := range []*wgen.X15Family{xf, xc, xv} {
+		pr := f.Prog(f.N / 2)
+		cc := f.CaseOf(pr, f.N/2, len(pr.Inputs)-1)
+		r.Sample(map[string]any{"family": f.Name, "case": cc.Sig, "hostile_tuples_of_this_program": len(pr.Inputs), "source": wgen.Print(cc.Mod)})
+	}
 	printKeys(r)
-	return r.Finish("hardened operators (/ and % signed/unsigned scalar, vector and mixed; unary minus; abs; f32->i32/u32) on every tuple of a hostile operand alphabet x 3 operand sources; every dynamic access form (27 forms: storage/uniform/private/workgroup/function/value arrays, vectors, matrix columns, runtime arrays, nested chains, pointer arguments, atomics; reads, stores, compound assignment) x every representative of the index partition {0, n-1, n, n+1, 2^31-1, 2^31, 2^32-1} x {u32, i32} index type; reads of variables without initialiser (7 types x function/private/workgroup). Run under each backend's protective options (SPIR-V default wrappers; HLSL RestrictIndexing+zero-init; MSL Restrict and ReadZeroSkipWrite; GLSL: no index policy exists, operators and zero-init only) in trapping interpreters with poisoned locals; results must equal the WGSL-defined values (x/0=x, x%0=0, INT_MIN/-1=INT_MIN, -INT_MIN=INT_MIN, clamped f->i) and the policy-defined access results (clamped element; zero / skipped write)",
+	return r.Finish("hardened operators (/ and % signed/unsigned scalar, vector and mixed; unary minus; abs; f32->i32/u32) on every tuple of a hostile operand alphabet x 3 operand sources; every dynamic access form (27 forms: storage/uniform/private/workgroup/function/value arrays, vectors, matrix columns, runtime arrays, nested chains, pointer arguments, atomics; reads, stores, compound assignment) x every representative of the index partition {0, n-1, n, n+1, 2^31-1, 2^31, 2^32-1} x {u32, i32} index type; reads of variables without initialiser (7 types x function/private/workgroup; F15xz: 1-2 workgroup variables of 3 types at every position of the global list among a storage buffer and a private variable, read directly or only through a helper function). "+
+		"F15xf: every index-EXPRESSION form (plain, i+1, i-1, i*2, i/2, i>>1, i|1, i+j, i%N, i&(N-1), min(i,N-1), clamp(i,0,N-1), i*0+(N-1) for N in {n-1,n,n+1}, max(i,0), u32(i)/i32(u), bitcast, select both arms, abs, -i, let alias, var alias, the load itself, a function result, a for-loop counter started at i or bounded by i) x every access site (the 27 forms and object x space x {read, write, compound, through a pointer argument}) x {u32,i32} x the transformed-index alphabet {0, n-1, n, n+1, 2n, 2^31-1, 2^31, 2^32-1, -(n-1), -n, -(n+1)}. "+
+		"F15xc: every 2- and 3-level access chain (array of array, array of vector, matrix column-then-row, array of matrix, struct member array of array, array of struct with array member, runtime array of array / of struct; outer level shorter, equal and longer than inner) x space x operation x every assignment of {i, j} to the levels including one variable at several levels x index source {let, var, repeated load} x index types x the product of the per-level partitions. "+
+		"F15xv: every holder of an aggregate BY VALUE (let, var copy, function parameter, parameter passed on, function result indexed directly or after a let, member of a loaded struct, member of a struct parameter, let of a sub-aggregate, sub-aggregate as argument) x source {storage, uniform, private, constructed} x aggregate {array, vectors, matrix column and column+row, array of vector, array of array, struct member array} x {u32,i32} x partition. "+
+		"Mixed MSL policies: F15acc and F15idx again under Index=Restrict+Buffer=ReadZeroSkipWrite and Index=ReadZeroSkipWrite+Buffer=Restrict, each access judged by the policy that governs its address space. "+
+		"History: every ordered pair (A, B) of a cover of hostile-data programs (zero-init programs over all global layouts / helper use / entry-point position, workgroup zero-init of 7 types, div/mod/neg/abs wrapper users, workgroup and atomic accesses) compiled on ONE spirv.Backend under 2 option sets, B's words executed and judged; every ordered pair of a smaller cover compiled back to back through the HLSL/MSL/GLSL function API, B's text executed. "+
+		"Run under each backend's protective options (SPIR-V default wrappers; HLSL RestrictIndexing+zero-init; MSL Restrict and ReadZeroSkipWrite; GLSL: no index policy exists, operators and zero-init only) in trapping interpreters with poisoned locals; results must equal the WGSL-defined values (x/0=x, x%0=0, INT_MIN/-1=INT_MIN, -INT_MIN=INT_MIN, clamped f->i) and the policy-defined access results (clamped element; zero / skipped write)",
 		[]string{"the index alphabet is a partition by the guard's branch outcomes, not the full 2^32 range",
-			"SPIR-V and GLSL expose no index bounds policy in this tree: the access family is not applied to them (reported, not claimed)",
-			"for NaN inputs of float->int conversions any value is accepted; at the top of the range both the exact clamp and the clamp through the nearest float are accepted"})
+			"SPIR-V and GLSL expose no index bounds policy in this tree: the access families are not applied to them (reported, not claimed)",
+			"for NaN inputs of float->int conversions any value is accepted; at the top of the range both the exact clamp and the clamp through the nearest float are accepted",
+			"a program of the F15x families is compiled once per policy and executed on every hostile tuple (the tuples differ only in buffer contents)",
+			"history depth is 2 (ordered pairs); the text back ends are explored sequentially on a sub-cover"})
 }
